@@ -328,6 +328,11 @@ func demangleSingleFunction(fn *profile.Function, options []demangle.Option) {
 			}
 		}
 	}
+	if name == "" {
+		// The whole name was bracketed (e.g. "<unknown>"): keep it rather
+		// than leaving the function nameless.
+		name = fn.SystemName
+	}
 	fn.Name = name
 }
 
